@@ -132,7 +132,7 @@ __CPROVER_ensures(g_commented == true)''')],
         Mutant('trailing_hyphen_kept', EC, r'if \(theNext == theEnd \|\|\s*\*theNext == XalanUnicode::charHyphenMinus\)', 'if (theNext != theEnd &&\n                *theNext == XalanUnicode::charHyphenMinus)', expect='no trailing'),
         Mutant('end_not_refreshed', EC, r'\n                theEnd = theResult\.end\(\);\n', '\n', expect=None),
     ],
-    mechanisms=['comment content repair (xsl:comment)'],
+    mechanisms=['comment content repair (xsl:comment)', "comment '--' and PI '?>' repair before serialization"],
     assumptions=['bounded: strings of at most 7 units over a 3-unit alphabet (the loop distinguishes only hyphen / not hyphen)',
                  'XalanDOMString::insert(iterator, char) is modelled by a concrete shift; endChildrenToString / comment() of the execution context are not under contract'],
 )
